@@ -1,6 +1,7 @@
 //! xtmc: bounded exhaustive exploration of the real xt code. See /verif/DESIGN.md.
 
 #![allow(dead_code)]
+mod alloc;
 mod checks;
 mod env;
 mod gen;
@@ -15,6 +16,9 @@ mod util;
 mod yamlread;
 
 use std::time::Instant;
+
+#[global_allocator]
+static GLOBAL: alloc::Counting = alloc::Counting;
 
 fn usage() -> ! {
 	eprintln!("usage: xtmc <C01..C18> <quick|thorough>\n       xtmc replay <file>");
